@@ -346,7 +346,19 @@ _public_ int m_map_put(m_map_t *m, const char *key, void *value) {
     M_PARAM_ASSERT(value);
     
     /* Find a place to put our value */
-    return hashmap_put(m, m->flags & M_MAP_KEY_DUP ? mem_strdup(key) : key, value);
+    if (!(m->flags & M_MAP_KEY_DUP)) {
+        return hashmap_put(m, key, value);
+    }
+    
+    char *dup_key = mem_strdup(key);
+    M_ALLOC_ASSERT(dup_key);
+    const size_t old_length = m->length;
+    int ret = hashmap_put(m, dup_key, value);
+    if (ret != 0 || m->length == old_length) {
+        /* Key was not stored: put failed, or an existing entry was updated and kept its key */
+        memhook._free(dup_key);
+    }
+    return ret;
 }
 
 /*
